@@ -6,6 +6,8 @@ CONSTANTS
   WriteErrs = {"EPIPE", "RST", "timeout", "other", "closed"}
   ForwardWithErr = TRUE
   DialMayFail = FALSE
+  BufCap = 2
+  BufMode = "private"
   MaxFaults = 2
   Scheds = {"ud", "du", "alt"}
   Asyncs = {"eager", "lazy"}
